@@ -435,6 +435,10 @@ PROPS['C08']['required_theorems'] += ['gen_object_conversions', 'gen_missing_con
 PROPS['C12']['required_theorems'] += ['gen_dec', 'gen_add', 'gen_radd', 'gen_sub', 'gen_rsub', 'gen_mul', 'gen_rmul', 'gen_truediv', 'gen_abs',
                                       'gen_neg', 'gen_eq', 'gen_ne', 'gen_lt', 'gen_gt', 'gen_round', 'gen_toInt', 'gen_toFloat',
                                       'gen_mod_dms', 'gen_mod_ddm', 'gen_add_sub_dec', 'gen_cmp_dec']
+PROPS['C04']['more_proof_modules'] = list(PROPS['C04'].get('more_proof_modules', [])) + ['GeodeVerif.Proofs.C04b']
+PROPS['C04']['required_theorems'] += ['sphere_loop', 'vincdir_sphere', 'vincdir_sphere_end_point']
+PROPS['C05']['more_proof_modules'] = list(PROPS['C05'].get('more_proof_modules', [])) + ['GeodeVerif.Proofs.C05b']
+PROPS['C05']['required_theorems'] += ['sphere_loop_exits_first_pass', 'sphere_sigma_is_central_angle', 'vincinv_sphere']
 PROPS['C10']['required_theorems'] += ['west_east_in_strip', 'side_across_antimeridian', 'conv_sign_in_strip']
 PROPS['C16']['more_proof_modules'] = ['GeodeVerif.Proofs.C16b']
 PROPS['C16']['required_theorems'] += ['ttable_is_tableQ', 'even_checks', 'odd_checks', 't_table_even', 't_table_odd', 't_table',
